@@ -13,7 +13,7 @@ import (
 type intrinsic func(x *Exec, fr *frame, fn *ssa.Function, args []Value) Value
 
 var intrinsics map[string]intrinsic
-var models map[string]intrinsic
+var models = map[string]intrinsic{}
 
 type markRec struct {
 	Seq    int
@@ -166,6 +166,18 @@ func init() {
 		},
 		"vIdentical": func(x *Exec, fr *frame, fn *ssa.Function, a []Value) Value {
 			return x.ts.Bool(x.identical(a[0], a[1]))
+		},
+		"vLowerByte": func(x *Exec, fr *frame, fn *ssa.Function, a []Value) Value {
+			c := a[0].(*Term)
+			ts := x.ts
+			up := ts.And(ts.Cmp(OULe, ts.BV(8, 'A'), c), ts.Cmp(OULe, c, ts.BV(8, 'Z')))
+			return ts.Ite(up, ts.Bin(OAdd, c, ts.BV(8, 32)), c)
+		},
+		"vUpperByte": func(x *Exec, fr *frame, fn *ssa.Function, a []Value) Value {
+			c := a[0].(*Term)
+			ts := x.ts
+			lo := ts.And(ts.Cmp(OULe, ts.BV(8, 'a'), c), ts.Cmp(OULe, c, ts.BV(8, 'z')))
+			return ts.Ite(lo, ts.Bin(OSub, c, ts.BV(8, 32)), c)
 		},
 		"vStrEq": func(x *Exec, fr *frame, fn *ssa.Function, a []Value) Value {
 			return x.ts.StrEq(a[0].(Str), a[1].(Str))
